@@ -64,12 +64,15 @@ def hayson_templates(ctx):
     return [{'name': 'hayson-' + k, 'hayson': k} for k in HAYSON_KINDS] + [{'name': 'hayson-kind-type', 'hayson': None}]
 
 
-def hayson_member(ex, l):
+def hayson_member(ex, l, conc_numbers=False):
     from mirsym.models_serde import J
     k = ex.pick(8)
     if k == 0: return None
     if k == 1: return J('str', [])
     if k == 2: return J('str', l.text(1))
+    if k == 3 and conc_numbers:
+        # re-encoding a symbolic float needs int<->float cast reasoning that z3 does not finish: listed values instead
+        return J('f64', [1.0, 2.5, -3.0, 1e21, 9007199254740993.0][ex.pick(5)])
     if k == 3:
         x = l.f64(); ex.assume(z3.And(z3.Not(z3.fpIsNaN(x)), z3.Not(z3.fpIsInf(x))))      # JSON numbers are finite
         return J('f64', x)
@@ -86,11 +89,11 @@ def hayson_path(ex, t):
     from mirsym.hv import HV
     l = Leaves(ex)
     if t['hayson'] is None:
-        kindv = hayson_member(ex, l) or J('null'); members = [(list(b'val'), J('str', [l.byte([(0x20, 0x7e)])]))]
+        kindv = hayson_member(ex, l, t.get('conc_numbers')) or J('null'); members = [(list(b'val'), J('str', [l.byte([(0x20, 0x7e)])]))]
     else:
         kindv = J('str', list(t['hayson'].encode())); members = []
         for m in HAYSON_KINDS[t['hayson']]:
-            v = hayson_member(ex, l)
+            v = hayson_member(ex, l, t.get('conc_numbers'))
             if v is not None: members.append((list(m.encode()), v))
     ent = [(list(b'_kind'), kindv)] + members
     if ex.pick(2): ent = list(reversed(ent))
